@@ -611,6 +611,11 @@ func registerSync(ex *Exec) {
 		}
 		return nil, true
 	}
+	I["runtime.Goexit"] = func(ex *Exec, st *State, args []Value, call ssa.CallInstruction) (Value, bool) {
+		ex.beginUnwind(st, "goexit", nil)
+		st.g().Goexit = true
+		return nil, false // the run loop takes over: deferred calls, then the goroutine ends
+	}
 	I[zz+"ReportRaces"] = func(ex *Exec, st *State, args []Value, call ssa.CallInstruction) (Value, bool) {
 		st.ReportRaces = true // package-level state only
 		return nil, true
